@@ -9,7 +9,7 @@ for p in "$@"; do
     [ -d /tmp/mut-$p-out/m$k ] || continue
     tools/confirm_mut.sh $p m$k 2>&1 | grep RESULT
     echo "--- $p m$k"
-    tools/runmut.sh /tmp/mut-$p-out/m$k/patch.diff $p 2>&1 | grep -v conda | grep -v "^== .*KNOWN" | cut -c1-300 | head -3
+    tools/runmut.sh /tmp/mut-$p-out/m$k/patch.diff $p 2>&1 | grep -v conda | sed -E 's/^(== C[0-9]+ rc=[0-9]+:).*KNOWN-FINDING.*/\1 (KNOWN-FINDING line omitted)/' | cut -c1-300 | head -3
   done
 done
 echo ALLDONE
